@@ -51,6 +51,13 @@ def samples(F, rng, path, n=120, big=False):
     s_flt = zoo.write_and_load(F, zoo.float_spec(rng, n=n, d=4), path)
     arr = np.abs(rng.normal(300, 100, size=(n, 4))) + 1
     out = {'int': s_int, 'float': s_flt, 'array': arr, 'rfi': F.transform.to_rfi(s_int)}
+    # double-precision containers holding zeros and negative values (what "no conversion needed" shortcuts hand through)
+    s_f64 = zoo.write_and_load(F, zoo.float_spec(rng, n=n, d=4, dt='D'), path)
+    a0 = np.array(rng.normal(300, 200, size=(n, 4)))
+    a0[::7, 0] = 0.0
+    a0[3::11, 1] = 0.0
+    out['f64'] = s_f64
+    out['array0'] = a0
     if big:
         sb = zoo.int_spec(rng, n=70001, d=4, res=1024)
         out['big'] = F.transform.to_rfi(zoo.write_and_load(F, sb, path))
@@ -66,7 +73,7 @@ def templates(F, S, rng):
 
     def add(q, label, fn):
         T.append((q, label, fn))
-    for kind in ('int', 'float', 'array', 'rfi'):
+    for kind in ('int', 'float', 'array', 'rfi', 'f64', 'array0'):
         d = S[kind]
         is_s = hasattr(d, 'channels')
         c0, c1 = (d.channels[0], d.channels[1]) if is_s else (0, 1)
